@@ -798,6 +798,12 @@ def batch_rule(ctx):
     return [res_cat, res_cnt]
 
 
+def batch_cat_rule(ctx):
+    """BATCH-CAT for C04: with batch_size, sample(n, context) still draws its i-th block for context row i
+    (the batches are joined along the sample axis, never through a merged axis split in another order)."""
+    return [r for r in batch_rule(ctx) if r.rule == "BATCH-CAT"]
+
+
 def sample_shape_rule(ctx):
     """SAMPLE-SHAPE: every _sample implementation returns [n, ...] / [rows, n, ...]."""
     p = ctx.p
@@ -860,7 +866,7 @@ register(
 
 register(
     "C04",
-    [slp_assemble_rule, noise_src_rule, slp_ctx_rule, layout_rule],
+    [slp_assemble_rule, noise_src_rule, slp_ctx_rule, layout_rule, batch_cat_rule],
     "SLP-CTX: the context expression handed to the base distribution and to the transform on every returning path of "
     "Flow._log_prob, _sample and sample_and_log_prob, normalised modulo row replication, must be one single function of the "
     "context argument (today self._embedding_net(context)); a deviating entry point scores or draws under a different conditional. "
@@ -871,7 +877,8 @@ register(
     "expansion of the eight samplers: element-wise operations unify layouts (broadcasting aligns trailing axes), merge / split / "
     "reshape / repeat_rows / repeat / sub-sampler calls transform them; an order conflict (noise drawn as [n, rows] split as "
     "[rows, n], a tiled context next to row-major samples, per-row parameters broadcast onto the sample axis) is reported. "
-    "(LEAD-LAYOUT replaces round 1's syntactic CTX-PAIR lint.) The statistical half (samples follow exp(log_prob)) is out of reach.",
+    "(LEAD-LAYOUT replaces round 1's syntactic CTX-PAIR lint.) BATCH-CAT (shared with C18): Distribution.sample with a batch size, "
+    "partially evaluated over a grid of counts with _sample uninterpreted, joins the batches along the sample axis. The statistical half (samples follow exp(log_prob)) is out of reach.",
     [A_API, T_OPS, "repeat_rows / merge_leading_dims / split_leading_dim behave as specified (C20 UT-RESHAPE)"],
 )
 
